@@ -62,7 +62,15 @@ func (in *Interp) paramVal(name string, t types.Type, opts *AnalyzeOpts) Val {
 			ls.Obj = o
 			o.Len = srcBV(ls, true)
 		}
-		return &SliceV{Obj: o, Lo: constInt(0, 64, true), Len: o.Len, Elem: u.Elem()}
+		sv := &SliceV{Obj: o, Lo: constInt(0, 64, true), Len: o.Len, Elem: u.Elem()}
+		if o.N > 0 || (opts != nil && opts.SliceLen != nil) {
+			if _, fixed := o.Len.ConstInt(); fixed {
+				// the capacity of an input slice is at least its length: appends
+				// that fit below that bound are known to write in place
+				sv.Cap = o.Len
+			}
+		}
+		return sv
 	case *types.Basic:
 		if u.Info()&types.IsString != 0 {
 			return &StrV{Opaque: mkTerm("str:"+name, 0)}
